@@ -508,6 +508,9 @@ def classify_bincount(case):
     return labs
 
 
+SANITIZE = True        # thorough tier: reduced pass against an ASan build of the extensions
+SANITIZE_SCALE = 0.03
+
 SUBCHECKS = [
     Subcheck("ids", ids_cases, check_ids, classify_ids, quick=1200, thorough=60000),
     Subcheck("intersect", circle_cases, check_intersect, classify_intersect, quick=1500, thorough=20000),
